@@ -163,13 +163,53 @@ impl Watchdog {
 // database session on SimFs
 // ---------------------------------------------------------------------------------------------
 
+/// Jitter: with this per-mille probability a thread sleeps a little at a `sched_point` (a point
+/// where raindb does not hold its mutex). Set per run from HistCfg::jitter.
+pub static JITTER_PERMILLE: std::sync::atomic::AtomicU64 = std::sync::atomic::AtomicU64::new(0);
+
+pub struct Jitter {
+    state: parking_lot::Mutex<u64>,
+}
+
+impl crate::trace::Controller for Jitter {
+    fn sched_point(&self, _name: &'static str) {
+        let p = JITTER_PERMILLE.load(Ordering::Relaxed);
+        if p == 0 {
+            return;
+        }
+        // xorshift: cheap, no dependency on the workload generator's stream
+        let r = {
+            let mut s = self.state.lock();
+            let mut x = *s;
+            x ^= x << 13;
+            x ^= x >> 7;
+            x ^= x << 17;
+            *s = x;
+            x
+        };
+        if r % 1000 < p {
+            std::thread::sleep(Duration::from_micros((r >> 20) % 600));
+        }
+    }
+    fn about_to_wait(&self, _which: &'static str) {}
+    fn woke(&self, _which: &'static str) {}
+    fn bg_idle(&self) {}
+}
+
 pub fn install_observer(root: &str, sink: &Arc<TraceSink>, contents: bool) {
+    let jitter = JITTER_PERMILLE.load(Ordering::Relaxed);
     raindb::verif::install(
         root,
         Arc::new(SinkObserver {
             sink: Arc::clone(sink),
             want_contents: contents,
-            ctl: None,
+            ctl: if jitter > 0 {
+                Some(Arc::new(Jitter {
+                    state: parking_lot::Mutex::new(0x9E3779B97F4A7C15 ^ jitter),
+                }) as Arc<dyn crate::trace::Controller>)
+            } else {
+                None
+            },
             lazy_gets: parking_lot::Mutex::new(Default::default()),
             bg_active: std::sync::atomic::AtomicBool::new(false),
             mute: vec![],
